@@ -52,9 +52,90 @@ def run(rep):
     _rp.run_canaries(rep, PROP, sub, acc)
     part_histories(rep)
     part_loops(rep)
+    part_flat(rep, sub)
     _rp.corpus_part(rep, PROP)
     if rep.tier == "thorough":
         _rp.suite_part(rep, PROP)
+
+
+def _run_flat(job):
+    from harness import conv, render, rowtrace
+
+    inp, kw = render.render(job["wb"], "dict")
+    res = conv.convert_case({"input": inp, "kwargs": kw, "events": False, "allow_malformed": True})
+    status = res["status"] if res["status"] in ("ok", "pyxform_error") else "crash:" + str(res.get("errclass"))
+    obs = {"inst": [], "body": [], "binds": [], "actions": [], "setv": [], "root": ""}
+    if res["status"] == "ok":
+        obs = rowtrace.observe(res["xform"])
+        # a <group> without ref is a presentation-only group (what a flat group becomes): it is not a control that names a node,
+        # so C02 says nothing about it; the remaining controls keep their nearest remaining ancestor (par is 1-based, 0 = none)
+        body, keep, newidx = obs["body"], [], {}
+        for i, c in enumerate(body, 1):
+            if not (c["tag"] == "group" and c["ref"] == ["?None"]):
+                newidx[i] = len(keep) + 1
+                keep.append(c)
+        for i, c in enumerate(body, 1):
+            if i in newidx:
+                p = c["par"]
+                while p and p not in newidx:
+                    p = body[p - 1]["par"]
+                c["par"] = newidx.get(p, 0)
+        obs["body"] = keep
+    cfg = {"lists": ["L"], "formname": obs["root"] or "data", "omitid": False, "iname": False, "entity": False, "entlabel": False}
+    return {"tag": job["tag"], "wb": job["wb"], "status": status, "message": (res.get("message") or "")[:200],
+            "free": [{"ev": "init", "cfg": cfg, "nwarn0": 0}, {"ev": "free", "status": status, "obs": obs}]}
+
+
+def part_flat(rep, sub):
+    """The (legacy, ODK Tables) `flat` setting: groups contribute no node to the instance, their rows become children of the root.  What C02
+    demands of the emitted document is decided on the document alone (Trace_RowParser `free` event), for TLC-generated structures that nest
+    groups (no repeats, names unique in the whole form) and for one hand-written case with the same name in two groups (known finding)."""
+    import copy
+
+    from harness import conv
+
+    jobs = []
+    for o in sub:
+        kinds = [sh[0] for sh in (o.get("shapes") or [])]
+        if o["res"]["status"] != "ok" or sum(1 for k in kinds if k.startswith("begin_group")) < 2 or any("repeat" in k for k in kinds):
+            continue
+        wb = copy.deepcopy(o["wb"])
+        st = next((x for x in wb["sheets"] if x["name"] == "settings"), None)
+        if st is None:
+            wb["sheets"].append({"name": "settings", "header": ["flat"], "rows": [["yes"]]})
+        else:
+            st["header"] = list(st["header"]) + ["flat"]
+            st["rows"] = [list(r) + ["yes"] for r in st["rows"]]
+        jobs.append({"wb": wb, "tag": {"flat": "generated", "shapes": o["shapes"]}})
+        if len(jobs) >= (250 if rep.tier == "quick" else 3000):
+            break
+    twice = {"sheets": [{"name": "survey", "header": ["type", "name", "label"], "rows": [["begin group", "g1", "G1"], ["text", "same", "S1"], ["end group", None, None],
+                                                                                      ["begin group", "g2", "G2"], ["text", "same", "S2"], ["end group", None, None]]},
+                       {"name": "settings", "header": ["flat"], "rows": [["yes"]]}]}
+    jobs.append({"wb": twice, "tag": {"flat": "same_name_in_two_groups"}})
+    outs = conv.map_cases(_run_flat, jobs, chunksize=16)
+    for o in outs:
+        if o.get("status") == "harness_error":
+            raise tlc.MachineryError(o["message"] + "\n" + o.get("tb", ""))
+    nok = sum(1 for o in outs if o["status"] == "ok")
+    rep.bounds["flat_forms"] = {"cases": len(outs), "converted": nok}
+    acc, info = tlc.validate_traces(_rp.TRACE_MOD, _rp.TRACE_CFG, [o["free"] for o in outs], shards=4, env={"PROP": PROP, "VERIF_SRC": "gen"}, tag="flatfree")
+    rep.traces_validated += len(acc)
+    rep.extra.setdefault("trace_runs", []).append({"source": "forms with the flat setting: closure of the emitted document (free event)", "traces": len(outs), "accepted": len(acc), "wall_s": round(info["wall"], 1)})
+    for i, o in enumerate(outs):
+        rep.case({"flat": o["tag"]}, nontrivial=o["status"] == "ok")
+        if i not in acc:
+            clause = info["progress"].get(i, (0, "unexplained_event"))[1]
+            rep.violation(f"{PROP}:flat:{clause}:{o['tag']['flat']}", f"clause {clause}; flat form {o['tag']} status={o['status']} {o['message']}"[:600], {"flat": True, "wb": o["wb"], "tag": o["tag"], "clause": clause})
+
+
+def replay_flat(rep, c):
+    o = _run_flat({"wb": c["wb"], "tag": c["tag"]})
+    acc, info = tlc.validate_traces(_rp.TRACE_MOD, _rp.TRACE_CFG, [o["free"]], shards=1, env={"PROP": PROP, "VERIF_SRC": "gen"}, tag="replay")
+    rep.traces_validated += len(acc)
+    rep.case({"flat": c["tag"]})
+    if 0 not in acc:
+        rep.violation(f"{PROP}:flat:{info['progress'].get(0, (0, '?'))[1]}:{c['tag']['flat']}", "replay", c)
 
 
 LOOP_TCFG = "SPECIFICATION TSpec\nCONSTANT MaxChoices = 0\nCONSTANT MaxRows = 0\nCONSTRAINT Accepted\nCHECK_DEADLOCK FALSE\n"
@@ -125,6 +206,8 @@ def replay(rep, case):
         return replay_history(rep, PROP, c)
     if c.get("loop"):
         return replay_loop(rep, c)
+    if c.get("flat"):
+        return replay_flat(rep, c)
     outs = corpus.run_forms([{"shapes": c["shapes"], "seed": c["seed"], "feat": c["feat"], "fmt": c["fmt"]}])
     sub, acc, rejected = _rp.validate(rep, PROP, outs, "replay")
     for o, l, clause in rejected:
